@@ -203,6 +203,10 @@ func (r *rdbdriver) GetLocationByMap(ipnet *net.IPNet, mapID []byte, context Con
 	if len(foundVal) == 0 {
 		return nil, 0, nil // consistent with the return at the end of cdbdriver.go:/GetLocationByMap
 	}
+	if !bytes.HasPrefix(foundKey, fullKey[:6]) {
+		// the closest key is a range point of another map: this map has no subnets
+		return nil, 0, nil
+	}
 	if len(foundVal) < 4 {
 		err = fmt.Errorf("short value: length %d, value %v, map %v", len(foundVal), foundVal, mapID)
 		return nil, 0, err
